@@ -381,3 +381,38 @@ def _cell(interp, args, kwargs, node):
 def _shape2(interp, args, kwargs, node):
     m = args[0]
     return VTuple([VInt(m.nrows), VInt(m.ncols)])
+
+
+# ---- random sub-sampling --------------------------------------------------------------------------------------
+
+@extern("numpy.random.choice")
+def np_random_choice(interp, args, kwargs, node):
+    """choice(a, size, replace=False): `size` elements of a at pairwise distinct positions (a sub-multiset), REQUIRES size <= len(a);
+    which positions: uniformly random (assumed of the generator, not decided)"""
+    a = args[0]
+    size = kwargs.get("size", args[1] if len(args) > 1 else None)
+    rep = kwargs.get("replace", args[2] if len(args) > 2 else VBool(True))
+    ctx = interp.ctx
+    ov = E.ordered_view(interp, a, node)
+    if ov is None or size is None:
+        raise Unsupported("np.random.choice argument form")
+    n, at = ov
+    m = to_int(size)
+    without = concrete_bool(interp.as_bool_term(rep)) is False
+    short = (interp.current_qualname or "").replace("pyrepseq.", "")
+    line = getattr(node, "lineno", "?")
+    if without and not interp.spec_mode:
+        if not ctx.decide(z3.And(m >= 0, m <= n), line):
+            raise_py(interp, "ValueError", "Cannot take a larger sample than population when 'replace=False'", node)
+    idx = ctx.fresh_fun("choice_idx", z3.IntSort(), z3.IntSort())
+    i, j = z3.Int("i!ch"), z3.Int("j!ch")
+    ctx.assume(z3.ForAll([i], z3.Implies(z3.And(0 <= i, i < m), z3.And(idx(i) >= 0, idx(i) < n))),
+               "extern:numpy.random.choice draws positions of its first argument")
+    if without:
+        ctx.assume(z3.ForAll([i, j], z3.Implies(z3.And(0 <= i, i < j, j < m), idx(i) != idx(j))),
+                   "extern:numpy.random.choice(replace=False) draws pairwise distinct positions")
+    ek = a.content.elem_kind if isinstance(a, VList) and isinstance(a.content, SymSeq) else None
+    r = VList(SymSeq(m, lambda k: at(idx(k)), ek), "ndarray")
+    r.sub_of, r.sub_idx, r.with_replacement = a, idx, not without
+    r.sid = f"choice({getattr(a, 'sid', '?')})@L{line}"
+    return interp.born(r)
